@@ -222,7 +222,9 @@ func c06Deltas(c *Ctx, a *sketchAnchors) {
 			readers = append(readers, f)
 		}
 	}
-	for _, f := range readers {
+	// decoding into a non-empty store: the batch arithmetic of the paginated fast path must not go negative
+	c08BatchSizes(c, rule, withNewHelpers(readers...))
+	for _, f := range withNewHelpers(readers...) {
 		tc := newTermCtx(c.P)
 		depth := g.depths(f)
 		nth := 0
@@ -477,7 +479,11 @@ func c06Additive(c *Ctx, a *sketchAnchors) {
 		tc := newTermCtx(c.P)
 		bad := ""
 		nAdd := 0
-		for _, b := range f.Blocks {
+		var blocks []*ssa.BasicBlock
+		for _, h := range withNewHelpers(f) {
+			blocks = append(blocks, h.Blocks...)
+		}
+		for _, b := range blocks {
 			for _, in := range b.Instrs {
 				switch in := in.(type) {
 				case *ssa.Call:
